@@ -287,6 +287,9 @@ fn exhaustive(ctx: &mut Ctx) {
 }
 
 fn run(ctx: &mut Ctx) {
+    // shared-string indices beyond 16 bits (LABELSST carries 32)
+    let n = ctx.n(1, 20);
+    ctx.run("bigtable", n, || crate::props::c19::big_table().prop_map(|mut b| { b.fmt = 2; b }), crate::props::c19::oracle_big);
     let n = ctx.n(2000, 50_000);
     ctx.run("table", n, || case_strategy(300, 40), oracle);
     let n = ctx.n(60, 1500);
@@ -299,6 +302,7 @@ fn run(ctx: &mut Ctx) {
 
 fn replay(sub: &str, case: &serde_json::Value) -> Option<Report> {
     match sub {
+        "bigtable" => replay_as::<crate::props::c19::BigTable>(case, crate::props::c19::oracle_big),
         "table" | "table-long" => replay_as::<Case>(case, oracle),
         "fixed" => replay_as::<Fixed>(case, oracle_fixed),
         _ => None,
